@@ -18,7 +18,6 @@ import (
 	"errors"
 	"math"
 	"strconv"
-	"strings"
 	"time"
 
 	"github.com/cybergarage/go-redis/redis/proto"
@@ -104,7 +103,7 @@ func (server *Server) registerCoreExecutors() {
 			}
 		}
 
-		switch strings.ToUpper(opt) {
+		switch toUpperASCII(opt) {
 		case "SET":
 			params, err := nextStringMapArguments(cmd, args)
 			if err != nil {
@@ -603,7 +602,7 @@ func (server *Server) registerCoreExecutors() {
 		param, err := args.NextString()
 		for err == nil {
 			isOption := true
-			switch strings.ToUpper(param) {
+			switch toUpperASCII(param) {
 			case "NX":
 				opt.NX = true
 			case "XX":
